@@ -192,6 +192,7 @@ def c06(run):
     seq_project(run, "P-seq[C06]", hs, step_oracles=(oracles.verdict_exact,),
                 theorems=["verdict_iff", "invalid_store_pure", "del_invalid_guard"], kernel_sample=5 if quick else 30)
     c06_repeated(run)
+    c06_sizes(run)
 
 
 def c06_repeated(run):
@@ -234,6 +235,52 @@ def c06_repeated(run):
                     break
                 if not valid and out != "NonMatchingObjSize":
                     run.violation({"kind": "repeated-validation", "algorithm": alg}, "wrong size judged %s" % out, {"algorithm": alg, "calls": seq_})
+    finally:
+        shutil.rmtree(base, ignore_errors=True)
+
+
+def c06_sizes(run):
+    """search: expected sizes on and around multiples of the read buffer, for contents longer / shorter than that: the size verdict is
+    'equals the true byte count', whatever the read loop does at buffer boundaries"""
+    import io
+    import os
+    import shutil
+    from universe import scratch_root, exn_name, DEFAULT_NS
+    import hashstore.filehashstore as fhs
+    base = scratch_root()
+    try:
+        hs = fhs.FileHashStore({"store_path": os.path.join(base, "s"), "store_depth": 3, "store_width": 2, "store_algorithm": "SHA-256",
+                                "store_metadata_namespace": DEFAULT_NS})
+        probe = os.path.join(base, "probe")
+        open(probe, "wb").close()
+        bsf = os.stat(probe).st_blksize
+        k = 0
+        for kind, bs in (("path", bsf), ("bytesio", 8192)):
+            for true_len in (bs + 1, 2 * bs + 7, 3 * bs, bs - 1):
+                for claimed in sorted({bs, 2 * bs, 3 * bs, true_len - 1, true_len + 1, true_len}):
+                    if claimed < 1:
+                        continue
+                    k += 1
+                    data = os.urandom(true_len)
+                    src = os.path.join(base, "d%d" % k)
+                    with open(src, "wb") as fh:
+                        fh.write(data)
+                    arg = src if kind == "path" else io.BytesIO(data)
+                    pid = "size-pid-%d" % k
+                    try:
+                        m = hs.store_object(pid, arg, None, None, None, claimed)
+                        out = "ok"
+                    except Exception as e:  # noqa: BLE001
+                        out = exn_name(e)
+                    run.case("search-size-boundaries", (kind, true_len, claimed), sample={"search": "expected size vs buffer multiples", "kind": kind, "true_size": true_len,
+                                                                                         "expected_object_size": claimed, "outcome": out})
+                    want = "ok" if claimed == true_len else "NonMatchingObjSize"
+                    if out != want:
+                        run.violation({"kind": "size-boundary", "data": kind}, "store_object(<%s of %d bytes>, expected_object_size=%d) -> %s, expected %s (read buffer %d)" % (
+                            kind, true_len, claimed, out, want, bs), {"kind": kind, "true_size": true_len, "expected_object_size": claimed})
+                    elif out == "ok" and (m.obj_size != true_len):
+                        run.violation({"kind": "size-boundary", "data": kind}, "stored size %d for %d bytes" % (m.obj_size, true_len), {"kind": kind, "true_size": true_len})
+                    os.remove(src)
     finally:
         shutil.rmtree(base, ignore_errors=True)
 
